@@ -31,6 +31,8 @@ ASSUMPTIONS = [
     "block values are small integers; every block is nonsingular with condition number < 50",
     "block sizes are passed as int64 arrays (documented requirement of the numba path)",
     "tolerance 1e-10 * max|inverse| (measured floor 2e-16)",
+    "matrix data dtypes float32, int64, int32 are tried with method='python' only: the numba path of "
+    "the unchanged code accepts float64 data only (TypeError for anything else)",
     "the numba kernel is defined (and re-loaded from the numba cache, ~60 ms) inside every call of "
     "invert_diagonal_blocks; the harness memoises numba.njit per code object for closure-free "
     "functions so that the same compiled kernel is reused; the first call in every case uses the "
@@ -284,6 +286,43 @@ def run_invert(case, out):
                                 cls = "VIOLATION"
                             nontrivial = len(comp) >= 2 and max(comp) >= 2
                             out.ev(cls, ("inv", tuple(comp), pats, fmt, order, method, zins, ez) if nontrivial else None)
+    # dtype axis of the matrix data: the python path of the unchanged code inverts integer and
+    # float32 data exactly (float64 result); the numba path accepts float64 data only (TypeError
+    # otherwise), so only method="python" is exercised here. Blocks are integer valued, their
+    # inverses are not.
+    for pats in pattern_choices(comp):
+        B, inblock = assemble(comp, pats)
+        exp = np.linalg.inv(B)
+        for dt in ("float32", "int64", "int32"):
+            for fmt in ("csr", "csc"):
+                for order in ("sorted", "reversed"):
+                    A0 = to_sparse(B, B != 0, fmt, order)
+                    A = type(A0)((A0.data.astype(dt), A0.indices.copy(), A0.indptr.copy()), shape=A0.shape)
+                    s_arg = np.array(comp, dtype=np.int64)
+                    before = (digest(A), digest(s_arg))
+                    det = dict(blocks=comp, patterns=list(pats), format=fmt, order=order, method="python",
+                               data_dtype=dt, matrix=B.tolist())
+                    try:
+                        inv = mo.invert_diagonal_blocks(A, s_arg, "python")
+                        bad = None
+                        if A.dtype != np.dtype(dt):
+                            bad = "harness: dtype not kept"
+                        elif not sps.issparse(inv):
+                            bad = "result is not sparse"
+                        else:
+                            got = np.asarray(inv.toarray(), dtype=float)
+                            if not _close(got, exp):
+                                bad = "differs from numpy.linalg.inv by %.3g (result dtype %s)" % (
+                                    float(np.max(np.abs(got - exp))) if got.shape == exp.shape else np.inf, inv.dtype)
+                            elif (digest(A), digest(s_arg)) != before:
+                                bad = "an argument was modified (storage digest changed)"
+                    except Exception as e:  # noqa: BLE001
+                        bad = "raised " + repr(e)
+                    cls = f"invert/python/{fmt}/{order}/dtype-{dt}"
+                    if bad:
+                        rec.bad("invert_diagonal_blocks/dtype", "invert_diagonal_blocks: " + bad, **det)
+                        cls = "VIOLATION"
+                    out.ev(cls, ("invdt", tuple(comp), pats, fmt, order, dt) if max(comp) >= 2 else None)
     # documented rejection of unknown methods
     B, inblock = assemble(comp, tuple("diag" for _ in comp))
     try:
